@@ -21,7 +21,9 @@ def fname(i, j):
 
 
 def root(j, lab):
-    return j - 1 if lab["vals"][j - 1]["kind"] == "alias" else j
+    while lab["vals"][j - 1]["kind"] == "alias":
+        j -= 1
+    return j
 
 
 def value_of(i, j, lab):
@@ -183,8 +185,11 @@ def run(ctx):
     four = [[lab(False, ["plain", "renamed"]), lab(True, ["plain", "plain"]), lab(False, ["renamed", "plain"]), lab(True, ["renamed", "plain"])],
             [lab(True, ["plain", "alias"]), lab(False, ["plain"]), lab(True, ["renamed", "renamed"]), lab(False, ["plain", "plain"])],
             [lab(False, ["plain", "renamed", "plain", "renamed"]), lab(True, ["plain", "renamed", "plain", "alias"])],
-            [lab(False, ["plain"]), lab(False, ["plain"]), lab(False, ["renamed"]), lab(True, ["plain", "renamed", "plain"])]]
-    for ls in (four if not quick else four[:3]):
+            [lab(False, ["plain"]), lab(False, ["plain"]), lab(False, ["renamed"]), lab(True, ["plain", "renamed", "plain"])],
+            # aliases in the middle of a value list (further values follow), inline and through a label_enum
+            [lab(False, ["plain", "alias", "plain", "renamed"]), lab(True, ["renamed", "alias", "plain"])],
+            [lab(True, ["plain", "alias", "alias", "plain"])]]
+    for ls in (four if not quick else four[:3] + four[4:]):
         perm = list(range(1, len(ls) + 1))
         rnd.shuffle(perm)
         picked.append({"labels": ls, "perm": perm})
